@@ -337,6 +337,10 @@ pub struct Universe {
     pub defs: Vec<Def>,
     /// rust module path prefix of the emitted items, e.g. "d" or "h3::v1"
     pub module: String,
+    /// evolution histories: the capabilities (Ord/Hash, Copy, Default) of a definition may
+    /// change from version to version, so other types must not rely on them
+    #[serde(default)]
+    pub defs_have_no_caps: bool,
 }
 
 #[derive(Clone, Copy, Debug, Default, PartialEq, Eq)]
@@ -381,7 +385,14 @@ impl Universe {
     pub fn caps(&self, ty: &Ty) -> Caps {
         self.caps_d(ty, 0)
     }
+    /// capabilities of a definition itself (decides which traits the emitter derives for it)
+    pub fn def_own_caps(&self, idx: usize, args: Vec<Ty>) -> Caps {
+        self.caps_x(&Ty::Def(idx, args), 0, true)
+    }
     fn caps_d(&self, ty: &Ty, depth: usize) -> Caps {
+        self.caps_x(ty, depth, false)
+    }
+    fn caps_x(&self, ty: &Ty, depth: usize, own: bool) -> Caps {
         let no = Caps::default();
         match ty {
             Ty::Prim(p) => Caps { key: !p.is_float(), copy: true, default: true },
@@ -451,7 +462,7 @@ impl Universe {
                 Leaf::DateTimeUtc => Caps { key: true, copy: true, default: true },
             },
             Ty::Def(i, args) => {
-                if depth > 6 {
+                if depth > 6 || (self.defs_have_no_caps && !own) {
                     return no;
                 }
                 let d = &self.defs[*i];
@@ -489,9 +500,9 @@ impl Universe {
                     DefKind::Enum { variants } => variants.iter().any(|v| v.fields.iter().any(|f| !f.is_live())),
                 };
                 if has_removed {
+                    // (Default is still available: the emitter writes a manual impl)
                     c.key = false;
                     c.copy = false;
-                    c.default = false;
                 }
                 c
             }
